@@ -298,6 +298,10 @@ class VUnit:
     assumptions_found: list = field(default_factory=list)
     global_rewrites: list = field(default_factory=list)
     lemma_obligations: list = field(default_factory=list)   # names of proof fns in preamble/epilogue reported as obligations
+    # (callee, source file, [functions whose call of it is verified in this unit]): a function with a precondition that its callers must
+    # establish is only as safe as ALL its call sites; call sites are enumerated mechanically and one in a function that is not under
+    # contract here is an UNDISCHARGED precondition (failed obligation), not an assumption
+    callers_closed: list = field(default_factory=list)
 
 
 R1_PATTERNS = [
@@ -764,6 +768,53 @@ def label_of(line_map, line: int) -> str:
     return "?"
 
 
+def enclosing_fns(src: str) -> list:
+    """[(name, body_start, body_end)] for every `fn name ... { .. }` in src (nested fns included), by token brace matching."""
+    toks = [t for t in tokenize(src) if t[0] not in ("ws", "comment")]
+    out = []
+    for i, t in enumerate(toks):
+        if t[0] == "ident" and t[1] == "fn" and i + 1 < len(toks) and toks[i + 1][0] == "ident":
+            name = toks[i + 1][1]
+            j, depth_p = i + 2, 0
+            while j < len(toks):
+                if toks[j][1] in "([<" and toks[j][0] == "punct":
+                    pass
+                if toks[j][0] == "punct" and toks[j][1] == ";" :
+                    j = None
+                    break
+                if toks[j][0] == "punct" and toks[j][1] == "{":
+                    break
+                j += 1
+            if j is None or j >= len(toks):
+                continue
+            d, k = 0, j
+            while k < len(toks):
+                if toks[k][0] == "punct" and toks[k][1] == "{":
+                    d += 1
+                elif toks[k][0] == "punct" and toks[k][1] == "}":
+                    d -= 1
+                    if d == 0:
+                        break
+                k += 1
+            if k < len(toks):
+                out.append((name, toks[j][2], toks[k][3]))
+    return out
+
+
+def check_callers_closed(repo: Path, callee: str, source: str, allowed: list) -> tuple[bool, list]:
+    src = (repo / source).read_text()
+    fns = enclosing_fns(src)
+    toks = [t for t in tokenize(src) if t[0] not in ("ws", "comment")]
+    sites = []
+    for i, t in enumerate(toks):
+        if t[0] == "ident" and t[1] == callee and i + 1 < len(toks) and toks[i + 1][1] == "(" and not (i > 0 and toks[i - 1][1] == "fn"):
+            inner = [f for f in fns if f[1] <= t[2] < f[2]]
+            owner = min(inner, key=lambda f: f[2] - f[1])[0] if inner else "?"
+            sites.append((owner, src.count("\n", 0, t[2]) + 1))
+    bad = [(o, ln) for o, ln in sites if o not in allowed]
+    return (len(sites) > 0 and not bad), sites, bad
+
+
 def load_units() -> dict:
     units = {}
     d = VERIF / "verus" / "units"
@@ -866,6 +917,26 @@ def run_vunit(u: VUnit, scratch, tier: str):
             ob.status, ob.failed_clauses, ob.detail = "failed", [f"{k}: {c}" for k, c, _ in lab_hits], lab_hits[0][2]
         else:
             ob.status = "discharged"
+        obs.append(ob)
+    # call-site closure of functions whose precondition this unit proves only inside named callers
+    for callee, source, allowed in u.callers_closed:
+        ob = Obligation(name=f"V:{u.name}:callers:{callee}", engine="verus 0.2026.09.13 / z3 + extractor (call-site enumeration)",
+                        function=f"every call site of {callee} in {source}", kind="proof", status="undecided", unit=u.name, checks=1,
+                        bound="every call site in the file", clauses=[f"{callee} is called only from {', '.join(allowed)} (where its precondition is proved)"])
+        try:
+            ok, sites, bad = check_callers_closed(repo, callee, source, allowed)
+            if not sites:
+                ob.detail = f"no call site of {callee} found (lost anchor)"
+            elif bad:
+                ob.status = "failed"
+                ob.failed_clauses = [f"precondition of {callee} not discharged at its call site in fn {o} ({source}:{ln}): that function is not under contract"
+                                     for o, ln in bad]
+                ob.detail = "; ".join(ob.failed_clauses)
+            else:
+                ob.status = "discharged"
+                ob.detail = "call sites: " + ", ".join(f"{o}:{ln}" for o, ln in sites)
+        except Exception as e:   # noqa
+            ob.detail = f"call-site scan failed: {e}"
         obs.append(ob)
     # errors in raw/preamble/epilogue parts that are not attributed: make them visible
     stray = [lab for lab in by_label if not lab.startswith("fn ") or (lab[3:] not in [_key(i) for i in fn_items] and not lab[3:].startswith("vacuity_"))]
